@@ -313,7 +313,8 @@ pub fn check(s: &Scenario) -> CheckResult {
         Form::Terminal(which) => {
             let (x, y): (T, T) = (Terminal::new(), Terminal::new());
             connect(&x, &y);
-            let (sa, sb) = (State::new_raw(s.a, 1.0, 0.0), State::new_raw(s.b, -1.0, 0.5));
+            // every third case: the two sides hold exactly equal states (only the timestamps differ)
+            let (sa, sb) = if s.k % 3 == 2 { (State::new_raw(s.a, 1.0, 0.0), State::new_raw(s.a, 1.0, 0.0)) } else { (State::new_raw(s.a, 1.0, 0.0), State::new_raw(s.b, -1.0, 0.5)) };
             let (ca, cb) = (Command::new(pd(s.k), s.a), Command::new(pd(s.k + 1), s.b));
             <Terminal<u8> as Settable<Datum<State>, u8>>::set(&mut x.borrow_mut(), Datum::new(t1, sa)).unwrap();
             <Terminal<u8> as Settable<Datum<State>, u8>>::set(&mut y.borrow_mut(), Datum::new(t2, sb)).unwrap();
